@@ -24,6 +24,13 @@ def commands(ctx, tier, seed):
     out['deprecated API'] = [c['cmd'] for c in sample(rng, [c for c in c11.build(ctx, 'quick', seed) if c['cmd'].startswith('L ')], 150 * k)]
     cc, _ = c06.build(ctx, 'quick', seed)
     out['CAN builders'] = [c['cmd'] for c in sample(rng, [c for c in cc if c['n'] <= 70], 200 * k)]
+    # payload accessors: SetPayload on random buffers, payload length / payload pointer on the messages the builder produced
+    pa = []
+    for n in [0, 1, 2, 3, 4, 7, 8, 13, 31, 64] * k:
+        pa.append('CP %s %s %x' % (F.hexbuf(rng.bytes(16 + n + rng.bits(2))), F.hexbuf(rng.bytes(n)), n))
+    built = vlib.run_harness(ctx, [c for c in out['CAN builders'] if c.startswith('CC full')][:30 * k])
+    pa += ['CL %s' % o.split()[1] for o in built if o.startswith('B ') and o.split()[1] != '.']
+    out['CAN payload accessors'] = pa
     vp, _ = c09.build(ctx, 'quick', seed)
     out['VSS pad'] = [c['cmd'] for c in sample(rng, [c for c in vp if c['cmd'].startswith('VP') and not c.get('arena')], 100 * k)]
     sa, _ = c10.build(ctx, 'quick', seed)
@@ -48,6 +55,16 @@ def commands(ctx, tier, seed):
                 b1 = o.split()[1]
                 cap = len(m['path'][1]) if m['path'][0] == 'interop' else 0
                 vs += [V.data_cmds(b1, m['value'])[0], 'VCL %s' % b1, 'VGP %s %x' % (b1, cap)]
+        # ... and the data reader on the messages the data writer produced (destination of exactly the data size)
+        # (little-endian configuration only: in the forced configuration harness and driver would print the elements of the
+        #  misread datatype with different widths, a formatting artefact and not a property of the library)
+        dset = [] if fbe else [(m, c) for (m, _), o in zip(plan, first) if o.startswith('B ') for c in [V.data_cmds(o.split()[1], m['value'])[0]]]
+        second = vlib.run_harness(ctx, [c for _, c in dset], exe=ctx.get('hx_fbe') if fbe else None) if dset else []
+        for (m, _), o in zip(dset, second):
+            if o.startswith('B '):
+                v = m['value']
+                cap = 0 if v[0] == 'scalar' else (len(v[1]) if v[0] == 'bytes' else v[1] * len(v[2]))
+                vs.append('VGD %s %s' % (o.split()[1], '-' if v[0] == 'scalar' else '%x' % cap))
         out[cfgname] = vs
     return out
 
@@ -123,10 +140,15 @@ def replay(ctx, path):
             import re as _re
             from props import c14_be
             m = _re.match(r'case \d+: (.*) -> ', f['cmd'])
-            cmd = m.group(1) if m else f['cmd']
+            cmd = f.get('full_cmd') or (m.group(1) if m else f['cmd'])
             res = vlib.run_harness(ctx, [cmd])
-            files, _ = c14_be.emit(ctx, [cmd], res)
+            if cmd.split()[0] in ('G', 'S', 'I'):
+                files, _ = c14_be.emit(ctx, [cmd], res)
+            else:
+                files = c14_be.emit_codec(ctx, [cmd], res)
             outs = [c14_be.run_cbmc(src, path_) for src, path_, _n in files]
+            if not files:
+                return {'impl': 'the command could not be turned into a big-endian case', 'expected': res[0][:200], 'fails': True}
             bad = [x for _s, fl, err in outs for x in (fl or [])] + [err for _s, fl, err in outs if err]
             return {'impl': ('big-endian execution differs: %s' % bad[0][:200]) if bad else 'big-endian execution gives the little-endian result %s' % res[0][:80],
                     'expected': res[0][:200], 'fails': bool(bad)}
